@@ -886,7 +886,11 @@ func (hlv *HybridLogicalVector) UpdateHistory(incomingHLV *HybridLogicalVector) 
 
 	// CV
 	if incomingHLV.SourceID != "" {
-		hlv.AddVersionToPV(incomingHLV.SourceID, incomingHLV.Version) // CV
+		if hlv.AddVersionToPV(incomingHLV.SourceID, incomingHLV.Version) == versionInMVOlder {
+			// incoming CV is newer than our merge version for the same source: the merge is superseded
+			hlv.InvalidateMV()
+			hlv.AddVersionToPV(incomingHLV.SourceID, incomingHLV.Version)
+		}
 	}
 
 	invalidateMV := false
